@@ -34,6 +34,7 @@ SRV = TRef('BptkServer')
 B = TRef('bptk')
 
 GHOST_SRV = {'now': DATETIME}
+GH_SAVE = dict(saves=INT, saved_obj=TRef('InstanceState'))   # ghost log of calls to the storage back end
 
 
 def td_seconds(rec_view_or_z, ty=TIMEOUT, present_only=True):
